@@ -1,8 +1,10 @@
-(** * Proofs/EncodingTheorems2.v — the second repair ([script2]): same commands as [script Fixed],
-    in an order that lets shared init sub-terms read states; well-formed and faithful. *)
+(** * Proofs/EncodingTheorems2.v — the second and third repair ([script2], [script3]): same commands
+    as [script Fixed], in an order that lets shared init sub-terms read states ([script2]) and that
+    defines the step-0 states in the dependency order of their init expressions ([script3]);
+    well-formed and faithful.  The lemmas are stated for any arrangement [sts] of the states. *)
 From Coq Require Import List Bool Lia.
 From Patronus Require Import EvalImpl Encoding SysExec ReachBmc ExprLemmas McBasics ScriptProofs EncodingBasics
-     EncodingFaithful EncodingWf EncodingWf2 AnalysisProofs EncodingNew EncodingNames EncodingTheorems EncodingExamples.
+     EncodingFaithful EncodingWf EncodingWf2 EncodingOrder AnalysisProofs EncodingNew EncodingNames EncodingTheorems EncodingExamples.
 Import ListNotations.
 Open Scope N_scope.
 
@@ -12,6 +14,9 @@ Section Script2.
   Hypothesis Ho : enc_order en.
   Variable n : nat.
   Let sy := e_sys en.
+  Variable sts : list state.
+  Hypothesis Hperm : forall st, In st sts <-> In st (s_states sy).
+  Let script_ord : list cmd := (init_block en sts ++ unrolls Fixed en 0 0 n)%list.
 
   Definition sig_cmd (s : sig) (k : N) : cmd :=
     if is_symbol (sg_expr s)
@@ -26,11 +31,11 @@ Section Script2.
   Qed.
 
   (** the shapes of the commands of [init_states2] *)
-  Lemma init_states2_origin c : forall sts done, (forall st, In st sts -> In st (s_states sy)) ->
-    In c (init_states2 en done sts) -> cmd_origin en 0 n c.
+  Lemma init_states2_origin c : forall (l : list state) done, (forall st, In st l -> In st (s_states sy)) ->
+    In c (init_states2 en done l) -> cmd_origin en 0 n c.
   Proof.
     assert (H0 : In 0 (steps 0 n)) by (apply in_steps; lia).
-    induction sts as [|st r IH]; intros done Hsub Hin; [destruct Hin|].
+    induction l as [|st r IH]; intros done Hsub Hin; [destruct Hin|].
     assert (Hst : In st (s_states sy)) by (apply Hsub; now left).
     cbn [init_states2] in Hin. destruct (st_init st) as [v|] eqn:Ei.
     - apply in_app_or in Hin. destruct Hin as [Hin|[<-|Hin]].
@@ -42,23 +47,23 @@ Section Script2.
       + apply (IH done); [intros; apply Hsub; now right|assumption].
   Qed.
 
-  Lemma script2_origin c : In c (script2 en n) -> cmd_origin en 0 n c.
+  Lemma script_ord_origin c : In c script_ord -> cmd_origin en 0 n c.
   Proof.
     assert (H0 : In 0 (steps 0 n)) by (apply in_steps; lia).
-    unfold script2, init_at2. rewrite !in_app_iff. intros [[Hin|Hin]|Hin].
-    - apply (init_states2_origin c (s_states sy) []); auto.
+    unfold script_ord, init_block. rewrite !in_app_iff. intros [[Hin|Hin]|Hin].
+    - apply (init_states2_origin c sts []); [apply Hperm|assumption].
     - apply in_define_signals_iff in Hin. destruct Hin as (s & Hs & _ & ->). now apply (OSig en 0 n _ s 0).
     - apply (script_origin en 0 n Fixed). unfold script. apply in_or_app. now right.
   Qed.
 
   (** every command of [script Fixed] is a command of [script2] *)
-  Lemma init_states2_has_sig s : forall sts done,
+  Lemma init_states2_has_sig s : forall (l : list state) done,
     pos (u_init (sg_uses s)) = true -> In s (e_sigs en) ->
-    (exists st v, In st sts /\ st_init st = Some v /\ needs v s = true) ->
+    (exists st v, In st l /\ st_init st = Some v /\ needs v s = true) ->
     existsb (fun d => needs d s) done = false ->
-    In (sig_cmd s 0) (init_states2 en done sts).
+    In (sig_cmd s 0) (init_states2 en done l).
   Proof.
-    induction sts as [|st r IH]; intros done HI Hs (st0 & v0 & Hin & Hi0 & Hn0) Hnd; [destruct Hin|].
+    induction l as [|st r IH]; intros done HI Hs (st0 & v0 & Hin & Hi0 & Hn0) Hnd; [destruct Hin|].
     cbn [init_states2]. destruct (st_init st) as [v|] eqn:Ei.
     - destruct (needs v s) eqn:Env.
       + apply in_or_app. left. apply in_define_signals_iff. exists s. split; [assumption|]. split; [|reflexivity].
@@ -69,36 +74,75 @@ Section Script2.
     - right. apply IH; try assumption. destruct Hin as [<-|Hin]; [congruence|]. eauto.
   Qed.
 
-  Lemma init_states2_has_state st : forall sts done, In st sts ->
+  Lemma init_states2_has_state st : forall (l : list state) done, In st l ->
     In (match st_init st with
         | Some v => DefineFun (state_name_at st 0) (type_of (st_sym st)) (expr_in_step en v 0)
         | None => DeclareConst (state_name_at st 0) (type_of (st_sym st))
-        end) (init_states2 en done sts).
+        end) (init_states2 en done l).
   Proof.
-    induction sts as [|st0 r IH]; intros done Hin; [destruct Hin|].
+    induction l as [|st0 r IH]; intros done Hin; [destruct Hin|].
     cbn [init_states2]. destruct Hin as [->|Hin].
     - destruct (st_init st); [apply in_or_app; right; now left|now left].
     - destruct (st_init st0); [apply in_or_app; right; right|right]; now apply IH.
   Qed.
 
-  Lemma fixed_in_script2 c : In c (script Fixed en 0 n) -> In c (script2 en n).
+  Lemma fixed_in_script_ord c : In c (script Fixed en 0 n) -> In c script_ord.
   Proof.
-    unfold script, script2. rewrite !in_app_iff. intros [Hin|Hin]; [left|now right].
-    unfold init_at in Hin. unfold init_at2. cbn [N.eqb] in Hin. rewrite !in_app_iff in Hin. rewrite in_app_iff.
+    unfold script, script_ord. rewrite !in_app_iff. intros [Hin|Hin]; [left|now right].
+    unfold init_at in Hin. unfold init_block. cbn [N.eqb] in Hin. rewrite !in_app_iff in Hin. rewrite in_app_iff.
     destruct Hin as [Hin|[Hin|Hin]].
     - left. apply in_define_signals_iff in Hin. destruct Hin as (s & Hs & HI & ->).
       apply init_states2_has_sig; try assumption; [|reflexivity].
       destruct (eo_init_sub en Ho s Hs HI) as (v & Hv & Hsub).
       unfold init_exprs in Hv. apply in_flat_map in Hv. destruct Hv as (st & Hst & Hv').
-      exists st, v. split; [assumption|]. split; [destruct (st_init st); [destruct Hv' as [<-|[]]; reflexivity|destruct Hv']|].
+      exists st, v. split; [now apply Hperm|]. split; [destruct (st_init st); [destruct Hv' as [<-|[]]; reflexivity|destruct Hv']|].
       unfold needs. now apply mem_In.
     - left. apply in_map_iff in Hin. destruct Hin as (st & <- & Hst). cbn.
-      pose proof (init_states2_has_state st (s_states sy) [] Hst) as H. destruct (st_init st); exact H.
+      pose proof (init_states2_has_state st sts [] (proj2 (Hperm st) Hst)) as H. destruct (st_init st); exact H.
     - now right.
   Qed.
 End Script2.
 
 (** ** the statements for [enc_new] *)
+Theorem script_ord_faithful_sys sy nm (sts : list state) (rho0 : env) (frees : list env) (sigma0 : env) :
+  sys_wf sy = true -> names_ok (enc_new sy nm) = true -> is_initial sy rho0 ->
+  (forall st, In st sts <-> In st (s_states sy)) ->
+  let en := enc_new sy nm in
+  let n := length frees in
+  let sc := (init_block en sts ++ unrolls Fixed en 0 0 n)%list in
+  let trace := run_from sy rho0 frees in
+  let at_step := fun k => nth (N.to_nat k) trace env0 in
+  script_check [] sc = true ->
+  (forall nm' t e k, In (DeclareConst nm' t) sc -> k <= N.of_nat n ->
+      sig_sym en e k = Some (mk_sym nm' t) -> same_val sigma0 (mk_sym nm' t) (at_step k) e) ->
+  forall e k s, observable sy e -> k <= N.of_nat n -> get_signal_at en e k = Some s ->
+    same_val (script_eval sigma0 sc) s (at_step k) e.
+Proof.
+  intros Hwf Hn Hinit Hperm en n sc trace at_step' Hck Hdecl e k s Hobs Hk Hget.
+  pose proof (enc_new_basic sy nm Hwf) as Hb. pose proof (enc_new_order sy nm Hwf) as Ho.
+  pose proof (names_ok_inj _ Hn) as Hinj. fold en in Hb, Ho, Hinj.
+  assert (Hperm' : forall st, In st sts <-> In st (s_states (e_sys en))) by exact Hperm.
+  assert (Hks : In k (steps 0 n)) by (apply in_steps; lia).
+  assert (Hcoh := coherent sy nm Hwf Hinj 0 n rho0 frees eq_refl (fun _ => Hinit)). fold en trace in Hcoh.
+  assert (Hat : forall k0, at_step 0 trace k0 = at_step' k0) by (intros k0; unfold at_step, at_step'; now rewrite N.sub_0_r).
+  unfold get_signal_at in Hget. destruct (sig_sym en e k) as [s'|] eqn:Es.
+  - injection Hget as <-.
+    destruct (observable_covered sy nm Hwf Fixed 0 n rho0 frees eq_refl (fun _ => Hinit) e k s' Hobs Hks Es) as (c & Hc & Hsym).
+    apply (fixed_in_script_ord en Ho n sts Hperm') in Hc. fold sc in Hc.
+    rewrite <- Hat.
+    apply (script_faithful_sc en Hb 0 n trace Hcoh rho0 frees eq_refl eq_refl (fun _ => Hinit) sc sigma0 (script_ord_origin en n sts Hperm') Hck) with (c := c); try assumption.
+    intros nm' t Hin.
+    destruct (script_ord_origin en n sts Hperm' _ Hin) as [s0 k0 Hs0 Hk0 Hc0|st k0 Hst Hk0 Hc0| |]; try discriminate.
+    + destruct (is_symbol (sg_expr s0)); [|discriminate]. injection Hc0 as -> ->.
+      apply same_val_agree. eapply same_val_trans; [apply (Hdecl _ _ (sg_expr s0) k0 Hin); [apply in_steps in Hk0; lia|now apply (sig_sym_sig en Hb)]|].
+      rewrite <- Hat. apply same_val_sym. apply (tau_spec en Hb 0 n trace Hcoh); [assumption|now apply (sig_sym_sig en Hb)].
+    + injection Hc0 as -> ->.
+      apply same_val_agree. eapply same_val_trans; [apply (Hdecl _ _ (st_sym st) k0 Hin); [apply in_steps in Hk0; lia|now apply (sig_sym_state en Hb)]|].
+      rewrite <- Hat. apply same_val_sym. apply (tau_spec en Hb 0 n trace Hcoh); [assumption|now apply (sig_sym_state en Hb)].
+  - destruct e; try discriminate. destruct w; try discriminate. destruct p; try discriminate.
+    injection Hget as <-. split; reflexivity.
+Qed.
+
 Theorem script2_wf_sys sy nm n :
   sys_wf sy = true -> names_ok (enc_new sy nm) = true -> inits_read_earlier (enc_new sy nm) ->
   script_check [] (script2 (enc_new sy nm) n) = true.
@@ -122,28 +166,7 @@ Theorem script2_faithful_sys sy nm (rho0 : env) (frees : list env) (sigma0 : env
   forall e k s, observable sy e -> k <= N.of_nat n -> get_signal_at en e k = Some s ->
     same_val (script_eval sigma0 sc) s (at_step k) e.
 Proof.
-  intros Hwf Hn Hinit en n sc trace at_step' Hck Hdecl e k s Hobs Hk Hget.
-  pose proof (enc_new_basic sy nm Hwf) as Hb. pose proof (enc_new_order sy nm Hwf) as Ho.
-  pose proof (names_ok_inj _ Hn) as Hinj. fold en in Hb, Ho, Hinj.
-  assert (Hks : In k (steps 0 n)) by (apply in_steps; lia).
-  assert (Hcoh := coherent sy nm Hwf Hinj 0 n rho0 frees eq_refl (fun _ => Hinit)). fold en trace in Hcoh.
-  assert (Hat : forall k0, at_step 0 trace k0 = at_step' k0) by (intros k0; unfold at_step, at_step'; now rewrite N.sub_0_r).
-  unfold get_signal_at in Hget. destruct (sig_sym en e k) as [s'|] eqn:Es.
-  - injection Hget as <-.
-    destruct (observable_covered sy nm Hwf Fixed 0 n rho0 frees eq_refl (fun _ => Hinit) e k s' Hobs Hks Es) as (c & Hc & Hsym).
-    apply (fixed_in_script2 en Ho n) in Hc. fold sc in Hc.
-    rewrite <- Hat.
-    apply (script_faithful_sc en Hb 0 n trace Hcoh rho0 frees eq_refl eq_refl (fun _ => Hinit) sc sigma0 (script2_origin en n) Hck) with (c := c); try assumption.
-    intros nm' t Hin.
-    destruct (script2_origin en n _ Hin) as [s0 k0 Hs0 Hk0 Hc0|st k0 Hst Hk0 Hc0| |]; try discriminate.
-    + destruct (is_symbol (sg_expr s0)); [|discriminate]. injection Hc0 as -> ->.
-      apply same_val_agree. eapply same_val_trans; [apply (Hdecl _ _ (sg_expr s0) k0 Hin); [apply in_steps in Hk0; lia|now apply (sig_sym_sig en Hb)]|].
-      rewrite <- Hat. apply same_val_sym. apply (tau_spec en Hb 0 n trace Hcoh); [assumption|now apply (sig_sym_sig en Hb)].
-    + injection Hc0 as -> ->.
-      apply same_val_agree. eapply same_val_trans; [apply (Hdecl _ _ (st_sym st) k0 Hin); [apply in_steps in Hk0; lia|now apply (sig_sym_state en Hb)]|].
-      rewrite <- Hat. apply same_val_sym. apply (tau_spec en Hb 0 n trace Hcoh); [assumption|now apply (sig_sym_state en Hb)].
-  - destruct e; try discriminate. destruct w; try discriminate. destruct p; try discriminate.
-    injection Hget as <-. split; reflexivity.
+  intros Hwf Hn Hinit. apply (script_ord_faithful_sys sy nm (s_states sy)); try assumption. tauto.
 Qed.
 
 (** the system of finding D2 is now handled *)
@@ -151,3 +174,119 @@ Lemma ex2_script2 :
   script_check [] (script2 (enc_new ex2_sys ex_nm) 2) = true /\
   script_check [] (script Fixed (enc_new ex2_sys ex_nm) 0 2) = false.
 Proof. vm_compute. split; reflexivity. Qed.
+
+(** ** the third repair: states at step 0 in the dependency order of their init expressions *)
+Theorem script3_wf en : enc_basic en -> enc_order en -> name_inj en -> acyclic_inits en ->
+  forall n, script_check [] (script3 en n) = true.
+Proof.
+  intros Hb Ho Hn Hac n.
+  apply (init_block_script_wf en Hb Ho Hn (init_order en)).
+  - apply (init_order_perm en Hb).
+  - apply (init_order_nodup en Hb).
+  - apply (init_order_acyclic en Hb Hac).
+Qed.
+
+Theorem script3_wf_b en : enc_basic en -> enc_order en -> name_inj en -> init_order_complete_b en = true ->
+  forall n, script_check [] (script3 en n) = true.
+Proof.
+  intros Hb Ho Hn Hc n.
+  apply (init_block_script_wf en Hb Ho Hn (init_order en)).
+  - apply (init_order_perm en Hb).
+  - apply (init_order_nodup en Hb).
+  - apply (init_order_complete en Hb Hc).
+Qed.
+
+Theorem script3_wf_b_sys sy nm n :
+  sys_wf sy = true -> names_ok (enc_new sy nm) = true -> init_order_complete_b (enc_new sy nm) = true ->
+  script_check [] (script3 (enc_new sy nm) n) = true.
+Proof.
+  intros Hwf Hn Hc. apply script3_wf_b; try assumption.
+  - now apply enc_new_basic.
+  - now apply enc_new_order.
+  - now apply names_ok_inj.
+Qed.
+
+Theorem script3_wf_sys sy nm n :
+  sys_wf sy = true -> names_ok (enc_new sy nm) = true -> init_deps_acyclic sy ->
+  script_check [] (script3 (enc_new sy nm) n) = true.
+Proof.
+  intros Hwf Hn Hac. apply script3_wf; try assumption; [| | |now apply init_deps_acyclic_enc].
+  - now apply enc_new_basic.
+  - now apply enc_new_order.
+  - now apply names_ok_inj.
+Qed.
+
+(** the systems accepted before are still accepted: reading earlier states only is one way of being acyclic *)
+Fixpoint pos_of (y : expr) (l : list state) : nat :=
+  match l with
+  | [] => O
+  | a :: r => if expr_eqb (st_sym a) y then O else S (pos_of y r)
+  end.
+
+Lemma pos_of_in y : forall l1 r, In y (map st_sym l1) -> (pos_of y (l1 ++ r) < length l1)%nat.
+Proof.
+  induction l1 as [|a l1 IH]; intros r Hin; [destruct Hin|]. cbn.
+  destruct (expr_eqb (st_sym a) y) eqn:E; [lia|].
+  destruct Hin as [Hin|Hin]; [rewrite Hin, expr_eqb_refl in E; discriminate|]. specialize (IH r Hin). lia.
+Qed.
+
+Lemma pos_of_first st : forall l1 r, ~ In (st_sym st) (map st_sym l1) -> pos_of (st_sym st) (l1 ++ st :: r) = length l1.
+Proof.
+  induction l1 as [|a l1 IH]; intros r Hn; cbn.
+  - now rewrite expr_eqb_refl.
+  - destruct (expr_eqb (st_sym a) (st_sym st)) eqn:E.
+    + apply expr_eqb_true in E. exfalso. apply Hn. now left.
+    + f_equal. apply IH. intros H. apply Hn. now right.
+Qed.
+
+Lemma read_earlier_acyclic en : enc_basic en -> inits_read_earlier en -> init_deps_acyclic (e_sys en).
+Proof.
+  intros Hb Hre.
+  exists (fun st => pos_of (st_sym st) (s_states (e_sys en))).
+  intros st e st' Hst Hst' He Hy.
+  pose proof (find_state_of en Hb st' Hst') as Hf.
+  apply in_split in Hst. destruct Hst as (l1 & l2 & E).
+  pose proof (eb_states_nodup en Hb) as Hnd. rewrite E in Hnd |- *.
+  pose proof (Hre l1 st l2 e (st_sym st') st' E He Hy Hf) as Hin.
+  rewrite map_app in Hnd. cbn [map] in Hnd. apply NoDup_remove_2 in Hnd.
+  rewrite pos_of_first by (intros H; apply Hnd; apply in_or_app; now left).
+  apply pos_of_in. now apply in_map.
+Qed.
+
+Lemma read_earlier_acyclic_sys sy nm :
+  sys_wf sy = true -> inits_read_earlier (enc_new sy nm) -> init_deps_acyclic sy.
+Proof. intros Hwf Hre. apply (read_earlier_acyclic (enc_new sy nm)); [now apply enc_new_basic|assumption]. Qed.
+
+Theorem script3_faithful_sys sy nm (rho0 : env) (frees : list env) (sigma0 : env) :
+  sys_wf sy = true -> names_ok (enc_new sy nm) = true -> is_initial sy rho0 ->
+  let en := enc_new sy nm in
+  let n := length frees in
+  let sc := script3 en n in
+  let trace := run_from sy rho0 frees in
+  let at_step := fun k => nth (N.to_nat k) trace env0 in
+  script_check [] sc = true ->
+  (forall nm' t e k, In (DeclareConst nm' t) sc -> k <= N.of_nat n ->
+      sig_sym en e k = Some (mk_sym nm' t) -> same_val sigma0 (mk_sym nm' t) (at_step k) e) ->
+  forall e k s, observable sy e -> k <= N.of_nat n -> get_signal_at en e k = Some s ->
+    same_val (script_eval sigma0 sc) s (at_step k) e.
+Proof.
+  intros Hwf Hn Hinit. apply (script_ord_faithful_sys sy nm (init_order (enc_new sy nm))); try assumption.
+  apply (init_order_perm (enc_new sy nm)). now apply enc_new_basic.
+Qed.
+
+(** the system of finding D3 is now handled *)
+Lemma ex3_script3 :
+  script_check [] (script3 (enc_new ex3_sys ex_nm) 2) = true /\
+  script_check [] (script2 (enc_new ex3_sys ex_nm) 2) = false /\
+  script_check [] (script Fixed (enc_new ex3_sys ex_nm) 0 2) = false.
+Proof. vm_compute. repeat split; reflexivity. Qed.
+
+Lemma ex3_acyclic : sys_wf ex3_sys = true /\ names_ok (enc_new ex3_sys ex_nm) = true /\ init_deps_acyclic ex3_sys.
+Proof.
+  split; [vm_compute; reflexivity|]. split; [vm_compute; reflexivity|].
+  exists (fun st => match st_init st with Some _ => 1%nat | None => 0%nat end).
+  intros st e st' Hst Hst' He Hy. cbn in Hst, Hst'.
+  destruct Hst as [<-|[<-|[]]]; cbn in He; [|discriminate]. injection He as <-.
+  destruct Hst' as [<-|[<-|[]]]; cbn in Hy |- *; [|lia].
+  exfalso. vm_compute in Hy. repeat (destruct Hy as [Hy|Hy]; [discriminate|]). exact Hy.
+Qed.
